@@ -132,6 +132,10 @@ func c11Gen(t *rapid.T) C11Case {
 		c.Req.Proto = pick(t, "protov", []string{"1.0", "2"})
 	}
 	genHostTLS(t, &c.Req)
+	if chance(t, "body", 10) {
+		// a message body neither makes nor unmakes a preflight
+		c.Req.Body = pick(t, "bodyshape", []int{2, 17, 1000, -1, -1, -2})
+	}
 	// pre-set response headers from an outer wrapper
 	for i, n := 0, uniform(t, "npreset", 4); i < n; i++ {
 		k := pick(t, "presetkey", []string{"Vary", "Vary", "X-Pre", "Content-Type", "Access-Control-Allow-Origin", "Access-Control-Expose-Headers", "Set-Cookie", "X-Frame-Options"})
@@ -319,6 +323,23 @@ func c11Check(c C11Case, rec *Recorder) *Disc {
 				if _, still := resp.Entry[k]; !still {
 					return discf("pre-set header %s was deleted before the handler ran (the middleware may set it, not remove it): %s", k, where)
 				}
+				// "sets": where the middleware sets the field, what was there before does not matter; where it does not,
+				// the field stays as it was. The same request without that pre-set field tells which of the two applies.
+				var without []HV
+				for _, kv := range c.Preset {
+					if http.CanonicalHeaderKey(kv.Key) != k {
+						without = append(without, kv)
+					}
+				}
+				ref := DoScript(NewServer(m.Wrap).Wrap, c.Req, without, c.Script.run)
+				want := v
+				if rv, set := ref.Entry[k]; set {
+					want = rv
+				}
+				if !eqStrs(got, want) {
+					return discf("pre-set header %s %q: at handler entry it is %q; the middleware %s, so it should be %q: %s", k, v, got,
+						map[bool]string{true: "sets this field for this request", false: "does not set this field for this request"}[len(ref.Entry[k]) > 0], want, where)
+				}
 			default:
 				if !eqStrs(got, v) {
 					return discf("pre-set header %s changed from %q to %q before the handler ran: %s", k, v, got, where)
@@ -351,7 +372,7 @@ func c11Check(c C11Case, rec *Recorder) *Disc {
 
 func TestC11(t *testing.T) {
 	Prop[C11Case]{ID: "C11", Gen: c11Gen, Check: c11Check,
-		Rule: "generator: configured (any valid configuration, both debug modes; in 30% of these cases the handler is wrapped while the middleware is still a zero value and the configuration arrives afterwards through Reconfigure) or passthrough (zero value / Reconfigure(nil) after debug) middleware x method x Origin and ACRM each in {absent, present with zero values, empty string, one value, two values} x ACRH/ACRPN " +
+		Rule: "generator: configured (any valid configuration, both debug modes; in 30% of these cases the handler is wrapped while the middleware is still a zero value and the configuration arrives afterwards through Reconfigure) or passthrough (zero value / Reconfigure(nil) after debug) middleware x method x Origin and ACRM each in {absent, present with zero values, empty string, one value, two values} x ACRH/ACRPN x (10%) a message body (a few bytes, 1 KB, unknown length, explicit NoBody) " +
 			"x inner-handler script (header Set/Add/Del on names incl. Vary and Access-Control-*, status none/2xx-5xx, body) x pre-set response headers from an outer wrapper x (25%) a second request served start to finish by the same wrapped handler while the first handler is between its header operations and its WriteHeader (two requests in flight, order owned by the harness; usually the same operations with other values). Oracle: predicate 'configured and OPTIONS and >=1 Origin value and >=1 ACRM value' decides: " +
 			"handler never invoked + empty body + pre-set headers kept, or invoked exactly once with the very same request (same pointer, and header map / method / target / protocol / host as sent) and writer, header map at entry = pre-set (+Vary suffix, ACAO/ACAC/ACEH), final response = entry + the handler's own operations; passthrough: entry == pre-set exactly. " +
 			"non-trivial = boundary of the predicate (OPTIONS with zero-valued or empty Origin/ACRM; non-OPTIONS carrying both) or a handler touching Vary/CORS names; distinct by full case.",
